@@ -196,7 +196,7 @@ def to_dict(collection, engine, key_selector, value_selector=None):
         value = t if value_selector is None else value_selector(t)
         result[key] = value
         utils.limit_memory_usage(engine, (1, result))
-    return result
+    return utils.FrozenDict(result)
 
 
 @specs.parameter('d', utils.MappingType, alias='dict')
